@@ -21,7 +21,7 @@ func init() {
 	Register(&PropDef{
 		ID: "C19", Title: "retained state is bounded",
 		Config: c19Config, Run: c19Run, MaxSteps: 1, QuickS: 25, ThoroughS: 900,
-		Rule: "runs = one traffic pattern (ping-pong, one-directional stream, alternating bursts, floods of forged data messages with random key ids/counters/MACs, garbage floods, repeated refresh AKEs, repeated SMP runs, error messages) x version x fragment size, run to n = 64, 128, 256, 512 messages (thorough: up to 4096); at each checkpoint the pair is brought to a canonical quiescent point and the bytes reachable from each conversation are measured with the object-graph walker; verdict: growth above 2 KiB at EVERY doubling (so a one-off capacity step cannot trigger it), for total size or for the longest emitted message of a fixed-length text; " +
+		Rule: "runs = one traffic pattern (ping-pong, one-directional stream, alternating bursts, floods of forged data messages with random key ids/counters/MACs, garbage floods, repeated refresh AKEs, repeated SMP runs, error messages) x version x fragment size, run to n = 64, 128, 256, 512 messages (thorough: up to 4096); at each checkpoint the pair is brought to a canonical quiescent point and the bytes reachable from each conversation are measured with the object-graph walker; verdict: growth above 2 KiB at EVERY doubling (so a one-off capacity step cannot trigger it) with increments that themselves grow by at least 1.4x per doubling (so a bounded, fluctuating quantity cannot trigger it), for total size or for the longest emitted message of a fixed-length text; " +
 			"non-trivial = all checkpoints were reached; distinct = distinct (pattern, version, fragment size, seed) runs",
 		Assume: []string{"reachable bytes are measured from outside the package (reflect+unsafe), harness-owned objects cut out", "texts queued before a session and a fragment stream in progress are excluded by construction (checkpoints are quiescent)"},
 	})
@@ -281,6 +281,18 @@ func c19Run(rc *RunCtx) *Violation {
 			if samples[i].pre[k]-samples[i-1].pre[k] <= c19Slack {
 				preAll = false
 			}
+		}
+		// Growth that goes on for ever is (at least) proportional to the traffic: each segment is twice
+		// as long as the one before, so is its increment. A quantity that is bounded but fluctuates
+		// (a maximum taken over a longer segment is a little larger) shows increments that do not
+		// grow: the thorough tier met one (at most 16 MAC keys wait to be revealed; the largest
+		// message seen crept from 874 to 1094 bytes over 4096 messages) - a false alarm of the
+		// plain "larger at every doubling" rule.
+		if nn := len(samples); nn >= 4 {
+			prop := func(a, b, c int) bool { return float64(c-b) >= 1.4*float64(b-a) }
+			growAll = growAll && prop(samples[nn-3].total[k], samples[nn-2].total[k], samples[nn-1].total[k])
+			msgAll = msgAll && prop(samples[nn-3].msg[k], samples[nn-2].msg[k], samples[nn-1].msg[k])
+			preAll = preAll && prop(samples[nn-3].pre[k], samples[nn-2].pre[k], samples[nn-1].pre[k])
 		}
 		if preAll {
 			return rc.Viol("state.growth", fmt.Sprintf("%s: bytes reachable from the conversation right after a run of rejected messages grow with the length of the run:%s", w.P[k].Name, pseries),
